@@ -12,16 +12,18 @@
      ARelease  View.Release
      ATagAdd   AddTag of a tag with a data filter  AddTag
      ATagDel / ATagUpd  DelTag / UpdateTag(query)   (which tag: observed by the harness, see below)
-     AStart k  body of the parked job k            builder.FromPcap / index.Merge / search
-     AComplete k  completion closure of job k      importPcapJob / mergeIndexesJob / updateTagJob
+     AConvSet / AConvRemove / AConvAdd   UpdateTag(SetConverter) / removeConverter / addConverter
+     AStart k  body of the parked job k            builder.FromPcap / index.Merge / search / conversions
+     AComplete k  completion closure of job k      importPcapJob / mergeIndexesJob / updateTagJob / convertStreamJob
    Definitions only (computable, total); proofs are in IndexesProofs.v.
 
    Abstractions (see notes/C10.md, notes/C13.md):
    - an index file = uid (creation stamp) + entries (stream id, flow, version); contents are immutable
    - a capture = list of (flow, bytes) packets; a stream = a flow; version = total bytes
    - captures arrive in timestamp order, each once (enabledness of AImport; arrival order is C08)
-   - every tag has a data filter, so an import that creates a file makes every tag uncertain;
-     only the number of uncertain tags is tracked (tag semantics are C06)
+   - tag evaluation and converter caches are environment (C06/C16): how many tags are uncertain after a closure
+     (AEnvUnc) and whether the converter scheduler finds work (AEnvConvWork) are inputs, observed on the
+     implementation by the harness; the model decides from them which jobs start and what they lock
    - merge of a run of files = one file holding the newest entry of every id (C07); the theorems
      take the merge function as a Section variable with exactly that hypothesis
    - nStreamRecords is recomputed from the list instead of being updated incrementally *)
@@ -36,7 +38,7 @@ Record entry := mkEntry { e_id : N; e_flow : N; e_ver : N }.
 Record file := mkFile { f_uid : N; f_ents : list entry }.
 
 Inductive phase := AtStart | AtDone.
-Inductive kind := KImport | KMerge | KTag.
+Inductive kind := KImport | KMerge | KTag | KConvert.
 
 Record import_job := mkIJ {
   ij_caps : list N;          (* filenames handed to the job *)
@@ -56,6 +58,8 @@ Record merge_job := mkMJ {
 Record tag_job := mkTJ { tj_snap : list file; tj_phase : phase;
   tj_valid : bool }.   (* false: the tag was deleted / redefined while the job was in flight (its result is discarded) *)
 
+Record conv_job := mkCJ { cj_snap : list file; cj_phase : phase }.
+
 Record state := mkState {
   indexes : list file;            (* mgr.indexes *)
   used : list (N * N);            (* mgr.usedIndexes: uid -> count, zero entries deleted *)
@@ -67,16 +71,16 @@ Record state := mkState {
   next_id : N;                    (* mgr.nextStreamID *)
   next_uid : N;                   (* creation stamp of the next index file *)
   nunm : nat;                     (* mgr.nUnmergeableIndexes *)
-  ntags : N;                      (* number of tags *)
-  unc : N;                        (* number of tags with Uncertain <> 0 *)
-  dirty : bool;                   (* the *DuringTaggingJob masks are non-zero *)
+  cwork : bool;                   (* environment: startConverterJobIfNeeded would find streams to convert *)
+  unc : N;                        (* environment: number of tags with Uncertain <> 0 (tag evaluation is C06) *)
+  cjob : option conv_job;         (* converterJobRunning *)
   ijob : option import_job;
   mjob : option merge_job;        (* mergeJobRunning *)
   tjob : option tag_job;          (* taggingJobRunning *)
   views : list (N * list file) }. (* open, fetched views with their index snapshot *)
 
 Definition init : state :=
-  mkState [] [] [] [] [] [] 0 0 0 0%nat 0 0 false None None None [].
+  mkState [] [] [] [] [] [] 0 0 0 0%nat false 0 None None None None [].
 
 (* ---------------------------------------------------------------- use counts: lock / release *)
 Fixpoint cnt (m : list (N * N)) (u : N) : N :=
@@ -262,14 +266,19 @@ Inductive action :=
 | ARead (v : N)
 | ARelease (v : N)
 | ATagAdd
-| ATagDel (wasunc hit : bool)     (* DelTag of a tag that was uncertain / is the tag of the job in flight *)
-| ATagUpd (wasunc hit : bool)     (* UpdateTag(query) with a new definition *)
+| ATagDel (hit : bool)            (* DelTag; hit: it is the tag of the tagging job in flight *)
+| ATagUpd (hit : bool)            (* UpdateTag(query) with a new definition *)
+| AConvSet                        (* UpdateTag(SetConverter): attach / detach a converter *)
+| AConvRemove                     (* removeConverter (the executable disappeared) *)
+| AConvAdd                        (* addConverter *)
+| AEnvUnc (n : N)                 (* environment: after the next closure n tags are uncertain *)
+| AEnvConvWork (b : bool)         (* environment: the converter scheduler will (not) find work *)
 | AStart (k : kind)
 | AComplete (k : kind).
 
 Definition set_used_disk (st : state) (md : list (N * N) * list N) : state :=
   mkState (indexes st) (fst md) (snd md) (queue st) (known st) (processed st) (next_cap st) (next_id st)
-          (next_uid st) (nunm st) (ntags st) (unc st) (dirty st) (ijob st) (mjob st) (tjob st) (views st).
+          (next_uid st) (nunm st) (cwork st) (unc st) (cjob st) (ijob st) (mjob st) (tjob st) (views st).
 
 (* getIndexesCopy(start): copy of the list from start, locked *)
 Definition copy_from (start : nat) (st : state) : list file := skipn start (indexes st).
@@ -278,7 +287,7 @@ Definition copy_from (start : nat) (st : state) : list file := skipn start (inde
 Definition launch_import (files : list N) (st : state) : state :=
   let snap := copy_from 0 st in
   mkState (indexes st) (lock snap (used st)) (disk st) (queue st) (known st) (processed st) (next_cap st)
-          (next_id st) (next_uid st) (nunm st) (ntags st) (unc st) (dirty st)
+          (next_id st) (next_uid st) (nunm st) (cwork st) (unc st) (cjob st)
           (Some (mkIJ files (next_id st) snap AtStart [] 0 0)) (mjob st) (tjob st) (views st).
 
 (* startTaggingJobIfNeeded *)
@@ -290,25 +299,38 @@ Definition start_tagging (st : state) : state :=
       else
         let snap := copy_from 0 st in
         mkState (indexes st) (lock snap (used st)) (disk st) (queue st) (known st) (processed st) (next_cap st)
-                (next_id st) (next_uid st) (nunm st) (ntags st) (unc st) false
+                (next_id st) (next_uid st) (nunm st) (cwork st) (unc st) (cjob st)
                 (ijob st) (mjob st) (Some (mkTJ snap AtStart true)) (views st)
   end.
 
-(* startMergeJobIfNeeded (no converter jobs in this model) *)
+(* startConverterJobIfNeeded: whether some converter has streams to convert is an environment input (cwork) *)
+Definition start_converter (st : state) : state :=
+  match cjob st with
+  | Some _ => st
+  | None =>
+      if cwork st then
+        let snap := copy_from 0 st in
+        mkState (indexes st) (lock snap (used st)) (disk st) (queue st) (known st) (processed st) (next_cap st)
+                (next_id st) (next_uid st) (nunm st) false (unc st) (Some (mkCJ snap AtStart))
+                (ijob st) (mjob st) (tjob st) (views st)
+      else st
+  end.
+
+(* startMergeJobIfNeeded *)
 Definition start_merge (st : state) : state :=
-  match mjob st, tjob st with
-  | None, None =>
+  match mjob st, tjob st, cjob st with
+  | None, None, None =>
       if unc st =? 0 then
         match find_merge (nunm st) (indexes st) with
         | Some i =>
             let snap := copy_from i st in
             mkState (indexes st) (lock snap (used st)) (disk st) (queue st) (known st) (processed st) (next_cap st)
-                    (next_id st) (next_uid st) (nunm st) (ntags st) (unc st) (dirty st)
+                    (next_id st) (next_uid st) (nunm st) (cwork st) (unc st) (cjob st)
                     (ijob st) (Some (mkMJ i snap AtStart [])) (tjob st) (views st)
         | None => st
         end
       else st
-  | _, _ => st
+  | _, _, _ => st
   end.
 
 Fixpoint ascending (lo : N) (ks : list N) : bool :=
@@ -355,8 +377,8 @@ Definition step (st : state) (a : action) : state :=
         if ascending (next_cap st) ks then
           let q := queue st ++ ks in
           let st1 := mkState (indexes st) (used st) (disk st) q (known st) (processed st)
-                             (last_plus1 (next_cap st) ks) (next_id st) (next_uid st) (nunm st) (ntags st)
-                             (unc st) (dirty st) (ijob st) (mjob st) (tjob st) (views st) in
+                             (last_plus1 (next_cap st) ks) (next_id st) (next_uid st) (nunm st) (cwork st)
+                             (unc st) (cjob st) (ijob st) (mjob st) (tjob st) (views st) in
           if (length q =? length ks)%nat then launch_import (firstn (length ks) q) st1 else st1
         else st
       end
@@ -366,7 +388,7 @@ Definition step (st : state) (a : action) : state :=
       | None =>
           let snap := copy_from 0 st in
           mkState (indexes st) (lock snap (used st)) (disk st) (queue st) (known st) (processed st) (next_cap st)
-                  (next_id st) (next_uid st) (nunm st) (ntags st) (unc st) (dirty st)
+                  (next_id st) (next_uid st) (nunm st) (cwork st) (unc st) (cjob st)
                   (ijob st) (mjob st) (tjob st) (views st ++ [(v, snap)])
       end
   | ARead v =>
@@ -375,7 +397,7 @@ Definition step (st : state) (a : action) : state :=
           if refetch_empty then
             let snap := copy_from 0 st in
             mkState (indexes st) (lock snap (used st)) (disk st) (queue st) (known st) (processed st) (next_cap st)
-                    (next_id st) (next_uid st) (nunm st) (ntags st) (unc st) (dirty st)
+                    (next_id st) (next_uid st) (nunm st) (cwork st) (unc st) (cjob st)
                     (ijob st) (mjob st) (tjob st) (set_view v snap (views st))
           else st
       | _ => st
@@ -386,30 +408,30 @@ Definition step (st : state) (a : action) : state :=
       | Some s =>
           let md := release s (used st, disk st) in
           mkState (indexes st) (fst md) (snd md) (queue st) (known st) (processed st) (next_cap st)
-                  (next_id st) (next_uid st) (nunm st) (ntags st) (unc st) (dirty st)
+                  (next_id st) (next_uid st) (nunm st) (cwork st) (unc st) (cjob st)
                   (ijob st) (mjob st) (tjob st) (del_view v (views st))
       end
-  | ATagAdd =>
-      start_tagging
+  | ATagAdd => start_tagging st
+  | ATagDel hit =>
+      mkState (indexes st) (used st) (disk st) (queue st) (known st) (processed st) (next_cap st)
+              (next_id st) (next_uid st) (nunm st) (cwork st) (unc st) (cjob st)
+              (ijob st) (mjob st) (invalidate_tj hit (tjob st)) (views st)
+  | ATagUpd hit =>
+      start_converter (start_tagging
         (mkState (indexes st) (used st) (disk st) (queue st) (known st) (processed st) (next_cap st)
-                 (next_id st) (next_uid st) (nunm st) (ntags st + 1)
-                 (if next_id st =? 0 then unc st else unc st + 1) (dirty st)
-                 (ijob st) (mjob st) (tjob st) (views st))
-  | ATagDel wasunc hit =>
-      if ntags st =? 0 then st
-      else
-        mkState (indexes st) (used st) (disk st) (queue st) (known st) (processed st) (next_cap st)
-                (next_id st) (next_uid st) (nunm st) (ntags st - 1)
-                (if wasunc then unc st - 1 else unc st) (dirty st)
-                (ijob st) (mjob st) (invalidate_tj hit (tjob st)) (views st)
-  | ATagUpd wasunc hit =>
-      if ntags st =? 0 then st
-      else
-        start_tagging
-          (mkState (indexes st) (used st) (disk st) (queue st) (known st) (processed st) (next_cap st)
-                   (next_id st) (next_uid st) (nunm st) (ntags st)
-                   ((if wasunc then unc st - 1 else unc st) + (if next_id st =? 0 then 0 else 1)) (dirty st)
-                   (ijob st) (mjob st) (invalidate_tj hit (tjob st)) (views st))
+                 (next_id st) (next_uid st) (nunm st) (cwork st) (unc st) (cjob st)
+                 (ijob st) (mjob st) (invalidate_tj hit (tjob st)) (views st)))
+  | AConvSet => start_converter st
+  | AConvRemove => st
+  | AConvAdd => st
+  | AEnvUnc n =>
+      mkState (indexes st) (used st) (disk st) (queue st) (known st) (processed st) (next_cap st)
+              (next_id st) (next_uid st) (nunm st) (cwork st) n (cjob st)
+              (ijob st) (mjob st) (tjob st) (views st)
+  | AEnvConvWork b =>
+      mkState (indexes st) (used st) (disk st) (queue st) (known st) (processed st) (next_cap st)
+              (next_id st) (next_uid st) (nunm st) b (unc st) (cjob st)
+              (ijob st) (mjob st) (tjob st) (views st)
   | AStart KImport =>
       match ijob st with
       | Some (mkIJ caps nx snap AtStart _ _ _) =>
@@ -417,8 +439,8 @@ Definition step (st : state) (a : action) : state :=
           let created := match es with [] => [] | _ => [mkFile (next_uid st) es] end in
           mkState (indexes st) (used st) (map f_uid created ++ disk st) (queue st)
                   (match es with [] => known st | _ => allk end) (processed st) (next_cap st)
-                  (next_id st) (match es with [] => next_uid st | _ => next_uid st + 1 end) (nunm st) (ntags st)
-                  (unc st) (dirty st)
+                  (next_id st) (match es with [] => next_uid st | _ => next_uid st + 1 end) (nunm st) (cwork st)
+                  (unc st) (cjob st)
                   (Some (mkIJ caps nx snap AtDone created usednew (length (proc_caps caps)))) (mjob st) (tjob st) (views st)
       | _ => st
       end
@@ -428,15 +450,15 @@ Definition step (st : state) (a : action) : state :=
           let merged := match snap with [] => [] | _ => [mkFile (next_uid st) (merge snap)] end in
           mkState (indexes st) (used st) (map f_uid merged ++ disk st) (queue st) (known st) (processed st)
                   (next_cap st) (next_id st)
-                  (match snap with [] => next_uid st | _ => next_uid st + 1 end) (nunm st) (ntags st)
-                  (unc st) (dirty st) (ijob st) (Some (mkMJ off snap AtDone merged)) (tjob st) (views st)
+                  (match snap with [] => next_uid st | _ => next_uid st + 1 end) (nunm st) (cwork st)
+                  (unc st) (cjob st) (ijob st) (Some (mkMJ off snap AtDone merged)) (tjob st) (views st)
       | _ => st
       end
   | AStart KTag =>
       match tjob st with
       | Some (mkTJ snap AtStart v) =>
           mkState (indexes st) (used st) (disk st) (queue st) (known st) (processed st) (next_cap st)
-                  (next_id st) (next_uid st) (nunm st) (ntags st) (unc st) (dirty st)
+                  (next_id st) (next_uid st) (nunm st) (cwork st) (unc st) (cjob st)
                   (ijob st) (mjob st) (Some (mkTJ snap AtDone v)) (views st)
       | _ => st
       end
@@ -450,11 +472,11 @@ Definition step (st : state) (a : action) : state :=
           let u2 := lock created (fst md) in
           let q := skipn nproc (queue st) in
           let st1 := mkState idx u2 (snd md) q (known st) (processed st ++ firstn nproc caps) (next_cap st)
-                             (if has then nx + usednew else next_id st) (next_uid st) (nunm st) (ntags st)
-                             (if has then ntags st else unc st) (if has then true else dirty st)
+                             (if has then nx + usednew else next_id st) (next_uid st) (nunm st) (cwork st)
+                             (unc st) (cjob st)
                              None (mjob st) (tjob st) (views st) in
           let st2 := match q with [] => st1 | _ => launch_import q st1 end in
-          start_merge (start_tagging st2)
+          start_merge (start_converter (start_tagging st2))
       | _ => st
       end
   | AComplete KMerge =>
@@ -463,7 +485,7 @@ Definition step (st : state) (a : action) : state :=
           let st1 :=
             match merged with
             | [] => mkState (indexes st) (used st) (disk st) (queue st) (known st) (processed st) (next_cap st)
-                            (next_id st) (next_uid st) (S (nunm st)) (ntags st) (unc st) (dirty st)
+                            (next_id st) (next_uid st) (S (nunm st)) (cwork st) (unc st) (cjob st)
                             (ijob st) None (tjob st) (views st)
             | _ =>
                 let old := firstn (length snap) (skipn off (indexes st)) in
@@ -471,7 +493,7 @@ Definition step (st : state) (a : action) : state :=
                 let u2 := lock merged (fst md) in
                 let idx := firstn off (indexes st) ++ merged ++ skipn (off + length snap) (indexes st) in
                 mkState idx u2 (snd md) (queue st) (known st) (processed st) (next_cap st)
-                        (next_id st) (next_uid st) (nunm st + (length merged - 1))%nat (ntags st) (unc st) (dirty st)
+                        (next_id st) (next_uid st) (nunm st + (length merged - 1))%nat (cwork st) (unc st) (cjob st)
                         (ijob st) None (tjob st) (views st)
             end in
           let st2 := start_merge st1 in
@@ -481,12 +503,29 @@ Definition step (st : state) (a : action) : state :=
   | AComplete KTag =>
       match tjob st with
       | Some (mkTJ snap AtDone v) =>
-          (* "don't touch the tag if it was modified": the whole publishing block is skipped *)
-          let unc1 := if v then (if dirty st then ntags st else unc st - 1) else unc st in
+          (* whether the result is published ("don't touch the tag if it was modified") only changes tag state = environment *)
           let st1 := mkState (indexes st) (used st) (disk st) (queue st) (known st) (processed st) (next_cap st)
-                             (next_id st) (next_uid st) (nunm st) (ntags st) unc1 (dirty st)
+                             (next_id st) (next_uid st) (nunm st) (cwork st) (unc st) (cjob st)
                              (ijob st) (mjob st) None (views st) in
-          let st2 := start_merge (start_tagging st1) in
+          let st2 := start_merge (start_converter (start_tagging st1)) in
+          set_used_disk st2 (release snap (used st2, disk st2))
+      | _ => st
+      end
+  | AStart KConvert =>
+      match cjob st with
+      | Some (mkCJ snap AtStart) =>
+          mkState (indexes st) (used st) (disk st) (queue st) (known st) (processed st) (next_cap st)
+                  (next_id st) (next_uid st) (nunm st) (cwork st) (unc st) (Some (mkCJ snap AtDone))
+                  (ijob st) (mjob st) (tjob st) (views st)
+      | _ => st
+      end
+  | AComplete KConvert =>
+      match cjob st with
+      | Some (mkCJ snap AtDone) =>
+          let st1 := mkState (indexes st) (used st) (disk st) (queue st) (known st) (processed st) (next_cap st)
+                             (next_id st) (next_uid st) (nunm st) (cwork st) (unc st) None
+                             (ijob st) (mjob st) (tjob st) (views st) in
+          let st2 := start_merge (start_converter (start_tagging st1)) in
           set_used_disk st2 (release snap (used st2, disk st2))
       | _ => st
       end
@@ -501,15 +540,16 @@ Definition enabled (st : state) (a : action) : bool :=
   | AView v => match view_of v (views st) with None => true | Some _ => false end
   | ARead v | ARelease v => match view_of v (views st) with None => false | Some _ => true end
   | ATagAdd => true
-  | ATagDel wasunc hit | ATagUpd wasunc hit =>
-      negb (ntags st =? 0) && (if wasunc then negb (unc st =? 0) else true) &&
-      (if hit then match tjob st with Some _ => wasunc | None => false end else true)
+  | ATagDel hit | ATagUpd hit => if hit then match tjob st with Some _ => true | None => false end else true
+  | AConvSet | AConvRemove | AConvAdd | AEnvUnc _ | AEnvConvWork _ => true
   | AStart KImport => match ijob st with Some j => match ij_phase j with AtStart => true | _ => false end | None => false end
   | AStart KMerge => match mjob st with Some j => match mj_phase j with AtStart => true | _ => false end | None => false end
   | AStart KTag => match tjob st with Some j => match tj_phase j with AtStart => true | _ => false end | None => false end
   | AComplete KImport => match ijob st with Some j => match ij_phase j with AtDone => true | _ => false end | None => false end
   | AComplete KMerge => match mjob st with Some j => match mj_phase j with AtDone => true | _ => false end | None => false end
   | AComplete KTag => match tjob st with Some j => match tj_phase j with AtDone => true | _ => false end | None => false end
+  | AStart KConvert => match cjob st with Some j => match cj_phase j with AtStart => true | _ => false end | None => false end
+  | AComplete KConvert => match cjob st with Some j => match cj_phase j with AtDone => true | _ => false end | None => false end
   end.
 
 End WithCaptures.
